@@ -8,6 +8,7 @@ rac:     spec demodulator applied to the real encoder's output on a seeded corpu
 import z3
 from contracts.common import *  # noqa
 from contracts import common
+from contracts.cli_c import unit_emit_files, EMIT_SHAPES, replay_emit_files  # noqa
 from pyvc import driver
 from pyvc.engine import seqsum, to_z3bytes
 
@@ -284,6 +285,8 @@ def units(tier):
     for turbo in (False, True):
         for via in ("direct", "format"):
             us.append(("wav[%s,%s]" % (turbo, via), "unit_encode_as_wav", dict(turbo=turbo, via=via)))
+    for sh in EMIT_SHAPES:
+        us.append(("emit_files[%s]" % ",".join(sh), "unit_emit_files", dict(shape=sh)))
     return us
 
 
@@ -309,6 +312,8 @@ def _wav_checksum_replay(total_ff, tree, extra=0):
 def replay(o, tree):
     cfg = o.get("cfg") or {}
     w = o.get("witness") or {}
+    if cfg.get("kind") == "emit_files":
+        return replay_emit_files(o, tree)
     if cfg.get("kind") == "wav":
         # smallest image with a positive byte sum that is a multiple of 65535: 257 bytes of 0xFF; generally use the witness sum if feasible
         S = w.get("sum", 65535)
